@@ -6,6 +6,7 @@
 //   * integer exponents of numeric bases are small; function arguments that are numbers are small
 //     (gamma/zeta/bernoulli of huge integers do not terminate in reasonable time)
 //   * no polynomial powers (D12)
+//   * zeta(s, a) only with positive numeric a (zeta(2, 0) does not terminate: harmonic(ULONG_MAX, 2))
 #ifndef VERIF_C01_GEN_H
 #define VERIF_C01_GEN_H
 #include "common.h"
@@ -354,6 +355,9 @@ struct Gen {
             case 0:
                 return atan2(a, b);
             case 1:
+                // zeta(s, 0) with an even integer s calls harmonic((unsigned long)(0 - 1), s): 2^64 iterations
+                if (is_a_Number(*b) && !down_cast<const Number &>(*b).is_positive())
+                    return zeta(a, sym());
                 return zeta(a, b);
             case 2:
                 return kronecker_delta(a, b);
